@@ -79,7 +79,7 @@ func init() {
 			tsF := r.P.Field("workers/operator", "Timer", "Timestamp")
 			keyF := r.P.Field("workers/operator", "Timer", "Key")
 			var timerVar types.Object
-			ast.Inspect(lit.Body, func(nd ast.Node) bool {
+			inspect(lit.Body, func(nd ast.Node) bool {
 				if as, ok := nd.(*ast.AssignStmt); ok && len(as.Rhs) == 1 {
 					if call, ok := ast.Unparen(as.Rhs[0]).(*ast.CallExpr); ok && r.P.CalleeFunc(info, call) == getE {
 						timerVar = prog.IdentObj(info, as.Lhs[0])
@@ -93,7 +93,7 @@ func init() {
 			}
 			// stop condition
 			var stop *ast.IfStmt
-			ast.Inspect(lit.Body, func(nd ast.Node) bool {
+			inspect(lit.Body, func(nd ast.Node) bool {
 				if is, ok := nd.(*ast.IfStmt); ok && stop == nil && exprUsesField(info, is.Cond, tsF) && usesTimeCompare(info, is.Cond) {
 					stop = is
 				}
@@ -106,7 +106,7 @@ func init() {
 			tn := timerVar.Name()
 			// what is the watermark operand? any other symbol; we name it by discovery
 			var wmName string
-			ast.Inspect(stop.Cond, func(nd ast.Node) bool {
+			inspect(stop.Cond, func(nd ast.Node) bool {
 				if id, ok := nd.(*ast.Ident); ok {
 					if o := info.Uses[id]; o != nil && o != timerVar {
 						if v, isVar := o.(*types.Var); isVar && !v.IsField() && wmName == "" && o.Type().String() == "time.Time" {
@@ -271,7 +271,7 @@ func init() {
 			pop := r.P.Func("workers/operator", "(*KeyGroupPriorityQueue).Pop")
 			pi := pop.Pkg.TypesInfo
 			var minVar, okVar types.Object
-			ast.Inspect(pop.Decl.Body, func(nd ast.Node) bool {
+			inspect(pop.Decl.Body, func(nd ast.Node) bool {
 				if as, ok := nd.(*ast.AssignStmt); ok && len(as.Lhs) == 2 && len(as.Rhs) == 1 {
 					if call, ok := ast.Unparen(as.Rhs[0]).(*ast.CallExpr); ok {
 						if sel, ok := ast.Unparen(call.Fun).(*ast.SelectorExpr); ok && prog.SelField(pi, sel.X) == cache && sel.Sel.Name == "Pop" {
@@ -349,7 +349,7 @@ func init() {
 			}}
 			// boolean local possibly carrying the "complete" flag
 			var flag types.Object
-			ast.Inspect(f.Decl.Body, func(nd ast.Node) bool {
+			inspect(f.Decl.Body, func(nd ast.Node) bool {
 				if as, ok := nd.(*ast.AssignStmt); ok && len(as.Lhs) == 1 && len(as.Rhs) == 1 && prog.SelField(info, as.Lhs[0]) == all {
 					if o := prog.IdentObj(info, as.Rhs[0]); o != nil {
 						if _, isVar := o.(*types.Var); isVar {
@@ -361,7 +361,7 @@ func init() {
 			})
 			var scanLoop *ast.RangeStmt
 			scan := r.P.FuncObj("dkv", "(*DB).ScanPrefix")
-			ast.Inspect(f.Decl.Body, func(nd ast.Node) bool {
+			inspect(f.Decl.Body, func(nd ast.Node) bool {
 				if rs, ok := nd.(*ast.RangeStmt); ok {
 					if call, ok := ast.Unparen(rs.X).(*ast.CallExpr); ok && r.P.CalleeFunc(info, call) == scan {
 						scanLoop = rs
@@ -436,7 +436,7 @@ func init() {
 			// scan prefix: [keyGroup BE16][0x01]
 			kgF := r.P.Field("workers/operator", "KeyGroupPriorityQueue", "keyGroup")
 			okPrefix, okSchema, okLen := false, false, false
-			ast.Inspect(f.Decl.Body, func(nd ast.Node) bool {
+			inspect(f.Decl.Body, func(nd ast.Node) bool {
 				switch x := nd.(type) {
 				case *ast.CallExpr:
 					if sel, ok := ast.Unparen(x.Fun).(*ast.SelectorExpr); ok && sel.Sel.Name == "PutUint16" && len(x.Args) == 2 {
@@ -480,7 +480,7 @@ func init() {
 			r.Site(push.Decl.Pos(), "SortedCache.Push uses the replaced element")
 			used := false
 			found := false
-			ast.Inspect(push.Decl.Body, func(nd ast.Node) bool {
+			inspect(push.Decl.Body, func(nd ast.Node) bool {
 				switch x := nd.(type) {
 				case *ast.ExprStmt:
 					if call, ok := ast.Unparen(x.X).(*ast.CallExpr); ok {
@@ -513,7 +513,7 @@ func init() {
 			} else {
 				// a subtraction guarded by the replaced flag
 				sub := false
-				ast.Inspect(push.Decl.Body, func(nd ast.Node) bool {
+				inspect(push.Decl.Body, func(nd ast.Node) bool {
 					if as, ok := nd.(*ast.AssignStmt); ok && as.Tok == token.SUB_ASSIGN && len(as.Lhs) == 1 && prog.SelField(info, as.Lhs[0]) == size {
 						sub = true
 					}
@@ -527,7 +527,7 @@ func init() {
 				f := r.P.Func("util/ds", "(*SortedCache)."+n)
 				fi := f.Pkg.TypesInfo
 				var okVar types.Object
-				ast.Inspect(f.Decl.Body, func(nd ast.Node) bool {
+				inspect(f.Decl.Body, func(nd ast.Node) bool {
 					if as, ok := nd.(*ast.AssignStmt); ok && len(as.Lhs) == 2 && len(as.Rhs) == 1 {
 						if _, ok := ast.Unparen(as.Rhs[0]).(*ast.CallExpr); ok {
 							okVar = prog.IdentObj(fi, as.Lhs[1])
@@ -561,7 +561,7 @@ func init() {
 				spec := &pathsim.Spec{}
 				var okVar types.Object
 				if n.fn == "Pop" {
-					ast.Inspect(f.Decl.Body, func(nd ast.Node) bool {
+					inspect(f.Decl.Body, func(nd ast.Node) bool {
 						if as, ok := nd.(*ast.AssignStmt); ok && len(as.Lhs) == 2 && len(as.Rhs) == 1 {
 							if call, ok := ast.Unparen(as.Rhs[0]).(*ast.CallExpr); ok && r.P.CalleeFunc(info, call) == mutFn {
 								okVar = prog.IdentObj(info, as.Lhs[1])
@@ -588,7 +588,7 @@ func init() {
 					if callTo(fix)(c, ev) {
 						good := false
 						if len(ev.Call.Args) == 1 {
-							if call, ok := ast.Unparen(ev.Call.Args[0]).(*ast.CallExpr); ok && c.P.CalleeFunc(c.Info, call) == idx {
+							if call, ok := deref(c.Info, ev.Call.Args[0]).(*ast.CallExpr); ok && c.P.CalleeFunc(c.Info, call) == idx {
 								if sel, ok := ast.Unparen(call.Fun).(*ast.SelectorExpr); ok && prog.IdentObj(c.Info, sel.X) == part {
 									good = true
 								}
@@ -618,9 +618,9 @@ func init() {
 					gpi := r.P.Field("util/ds", "PartitionedPriorityQueue", "getPartitionIndex")
 					parts := r.P.Field("util/ds", "PartitionedPriorityQueue", "partitions")
 					ok := false
-					ast.Inspect(f.Decl.Body, func(nd ast.Node) bool {
+					inspect(f.Decl.Body, func(nd ast.Node) bool {
 						if ix, isIx := nd.(*ast.IndexExpr); isIx && prog.SelField(info, ix.X) == parts {
-							if call, isCall := ast.Unparen(ix.Index).(*ast.CallExpr); isCall && prog.SelField(info, call.Fun) == gpi && len(call.Args) == 1 && r.isParam(f, call.Args[0], 0) {
+							if call, isCall := deref(info, ix.Index).(*ast.CallExpr); isCall && prog.SelField(info, call.Fun) == gpi && len(call.Args) == 1 && r.isParam(f, call.Args[0], 0) {
 								ok = true
 							}
 						}
@@ -654,7 +654,7 @@ func init() {
 				return ok && prog.IdentObj(info, sel.X) == types.Object(rangeP)
 			}
 			filled := false
-			ast.Inspect(f.Decl.Body, func(nd ast.Node) bool {
+			inspect(f.Decl.Body, func(nd ast.Node) bool {
 				rs, ok := nd.(*ast.RangeStmt)
 				if !ok {
 					return true
@@ -708,12 +708,12 @@ func init() {
 			}
 			// getPartitionIndex
 			okIndex := false
-			ast.Inspect(f.Decl.Body, func(nd ast.Node) bool {
+			inspect(f.Decl.Body, func(nd ast.Node) bool {
 				lit, ok := nd.(*ast.FuncLit)
 				if !ok || lit.Type.Results == nil || len(lit.Type.Params.List) != 1 {
 					return true
 				}
-				ast.Inspect(lit.Body, func(m ast.Node) bool {
+				inspect(lit.Body, func(m ast.Node) bool {
 					ret, ok := m.(*ast.ReturnStmt)
 					if !ok || len(ret.Results) != 1 {
 						return true
@@ -724,7 +724,7 @@ func init() {
 					} else if l, ok := linearOf(info, nil, ret.Results[0]); ok && len(l) == 2 && l[rangeP.Name()+".Start"] == -1 {
 						for k, v := range l {
 							if v == 1 {
-								ast.Inspect(ret.Results[0], func(q ast.Node) bool {
+								inspect(ret.Results[0], func(q ast.Node) bool {
 									if id, ok := q.(*ast.Ident); ok && id.Name == k {
 										kgArg = id
 									}
@@ -768,7 +768,7 @@ func init() {
 			}{{"KeyGroupRange.IndexOf", map[string]int{"kg": 1, "r.Start": -1}}, {"KeyGroupRange.Size", map[string]int{"r.End": 1, "r.Start": -1}}} {
 				hf := r.P.Func("partitioning", h.name)
 				ok := false
-				ast.Inspect(hf.Decl.Body, func(nd ast.Node) bool {
+				inspect(hf.Decl.Body, func(nd ast.Node) bool {
 					if ret, isR := nd.(*ast.ReturnStmt); isR && len(ret.Results) == 1 {
 						if l, okL := linearOf(hf.Pkg.TypesInfo, hf.Decl.Body, ret.Results[0]); okL && sameLinear(l, h.want) {
 							ok = true
@@ -784,7 +784,7 @@ func init() {
 			kf := r.P.Func("partitioning", "KeyGroupRange.KeyGroups")
 			ki := kf.Pkg.TypesInfo
 			okK := false
-			ast.Inspect(kf.Decl.Body, func(nd ast.Node) bool {
+			inspect(kf.Decl.Body, func(nd ast.Node) bool {
 				rs, ok := nd.(*ast.RangeStmt)
 				if !ok {
 					return true
@@ -824,7 +824,7 @@ func init() {
 			ksF := r.P.Field("workers/operator", "Operator", "keySpace")
 			kgrF := r.P.Field("workers/operator", "Operator", "keyGroupRange")
 			var openPos, storePos token.Pos
-			ast.Inspect(f.Decl.Body, func(nd ast.Node) bool {
+			inspect(f.Decl.Body, func(nd ast.Node) bool {
 				switch x := nd.(type) {
 				case *ast.AssignStmt:
 					if len(x.Lhs) == 1 && len(x.Rhs) == 1 && prog.SelField(info, x.Lhs[0]) == dbF {
@@ -864,7 +864,7 @@ func init() {
 			ck := r.P.Field("proto/workerpb", "DeployOperatorRequest", "Checkpoints")
 			handleT := r.P.TypeName("dkv/recovery", "CheckpointHandle")
 			uses, builds := exprUsesField(info, f.Decl.Body, ck), false
-			ast.Inspect(f.Decl.Body, func(nd ast.Node) bool {
+			inspect(f.Decl.Body, func(nd ast.Node) bool {
 				if cl, ok := nd.(*ast.CompositeLit); ok && info.TypeOf(cl) == handleT.Type() {
 					builds = true
 					got := map[string]string{}
@@ -889,7 +889,7 @@ func init() {
 			nk := r.P.Func("workers/operator", "NewKeyGroupPriorityQueue")
 			all := r.P.Field("workers/operator", "KeyGroupPriorityQueue", "allDataInCache")
 			r.Site(nk.Decl.Pos(), "new key-group queues are not marked complete")
-			ast.Inspect(nk.Decl.Body, func(nd ast.Node) bool {
+			inspect(nk.Decl.Body, func(nd ast.Node) bool {
 				if kv, ok := nd.(*ast.KeyValueExpr); ok {
 					if id, ok := kv.Key.(*ast.Ident); ok && nk.Pkg.TypesInfo.Uses[id] == types.Object(all) {
 						if tv, ok := nk.Pkg.TypesInfo.Types[kv.Value]; !ok || tv.Value == nil || tv.Value.String() != "false" {
@@ -905,7 +905,7 @@ func init() {
 // usesTimeCompare reports whether e contains a time.Time comparison method call.
 func usesTimeCompare(info *types.Info, e ast.Node) bool {
 	found := false
-	ast.Inspect(e, func(nd ast.Node) bool {
+	inspect(e, func(nd ast.Node) bool {
 		if call, ok := nd.(*ast.CallExpr); ok {
 			if sel, ok := ast.Unparen(call.Fun).(*ast.SelectorExpr); ok {
 				if fn, ok := info.Uses[sel.Sel].(*types.Func); ok && fn.Pkg() != nil && fn.Pkg().Path() == "time" {
@@ -923,7 +923,7 @@ func usesTimeCompare(info *types.Info, e ast.Node) bool {
 
 func lookupIdentObj(info *types.Info, n ast.Node, name string) types.Object {
 	var out types.Object
-	ast.Inspect(n, func(nd ast.Node) bool {
+	inspect(n, func(nd ast.Node) bool {
 		if id, ok := nd.(*ast.Ident); ok && id.Name == name && out == nil {
 			out = info.Uses[id]
 		}
